@@ -107,12 +107,79 @@ pub enum LayoutKind {
     Stepped,
     /// Broadcast (stride-0) view where a leading dim repeats.
     Broadcast,
+    /// Stored with the last two axes swapped, viewed back in logical order (rank >= 3).
+    Swapped,
+    /// Stepped slice along the first axis of a larger poisoned buffer (rank >= 2).
+    SteppedOuter,
+    /// The tensor has size 1 along some axis in storage and is broadcast to the
+    /// logical shape (see `flatten_axis`); constructed by the caller.
+    BroadcastAxis,
+}
+
+/// Make all slices of `t` along `axis` equal to the first one. Returns the
+/// flattened logical tensor and the stored tensor with size 1 along `axis`,
+/// from which the former is obtained as a stride-0 broadcast view.
+pub fn flatten_axis(t: &TData, axis: usize) -> Option<(TData, TData)> {
+    if axis >= t.shape.len() || t.shape[axis] < 2 {
+        return None;
+    }
+    let w = if t.dtype == "f32" || t.dtype == "i32" { 4 } else { 1 };
+    let outer: usize = t.shape[..axis].iter().product();
+    let n = t.shape[axis];
+    let inner: usize = t.shape[axis + 1..].iter().product::<usize>() * w;
+    if outer == 0 || inner == 0 {
+        return None;
+    }
+    let mut flat = Vec::with_capacity(t.data.len());
+    let mut reduced = Vec::with_capacity(t.data.len() / n);
+    for o in 0..outer {
+        let first = &t.data[o * n * inner..o * n * inner + inner];
+        reduced.extend_from_slice(first);
+        for _ in 0..n {
+            flat.extend_from_slice(first);
+        }
+    }
+    let mut rshape = t.shape.clone();
+    rshape[axis] = 1;
+    Some((
+        TData { name: t.name.clone(), dtype: t.dtype.clone(), shape: t.shape.clone(), data: flat },
+        TData { name: t.name.clone(), dtype: t.dtype.clone(), shape: rshape, data: reduced },
+    ))
 }
 
 fn stage<T: Copy + Default + PartialEq + 'static>(shape: &[usize], vals: Vec<T>, kind: LayoutKind, poison: T) -> Option<Tensor<T>> {
     let base = Tensor::from_data(shape, vals);
     match kind {
-        LayoutKind::Contiguous => Some(base),
+        LayoutKind::Contiguous | LayoutKind::BroadcastAxis => Some(base),
+        LayoutKind::Swapped => {
+            let n = shape.len();
+            if n < 3 || shape[n - 1] < 2 || shape[n - 2] < 2 {
+                return None;
+            }
+            let mut perm: Vec<usize> = (0..n).collect();
+            perm.swap(n - 1, n - 2);
+            let stored = base.permuted(&perm).to_tensor();
+            Some(stored.into_permuted(&perm))
+        }
+        LayoutKind::SteppedOuter => {
+            if shape.len() < 2 || shape[0] == 0 {
+                return None;
+            }
+            let mut big_shape = shape.to_vec();
+            big_shape[0] = shape[0] * 3 + 1;
+            let mut big = Tensor::<T>::full(&big_shape, poison);
+            {
+                let items: Vec<rten_tensor::SliceItem> = (0..shape.len())
+                    .map(|d| if d == 0 { rten_tensor::SliceItem::range(1, None, 3) } else { rten_tensor::SliceItem::full_range() })
+                    .collect();
+                let mut dst = big.slice_mut(items.as_slice());
+                if dst.shape() != shape {
+                    return None;
+                }
+                dst.copy_from(&base.view());
+            }
+            Some(big)
+        }
         LayoutKind::Permuted => {
             if shape.len() < 2 {
                 return None;
@@ -175,7 +242,13 @@ impl Staged {
     pub fn view<'a>(&'a self, shape: &[usize], kind: LayoutKind) -> ValueOrView<'a> {
         fn v<'a, T>(t: &'a Tensor<T>, shape: &[usize], kind: LayoutKind) -> TensorView<'a, T> {
             match kind {
-                LayoutKind::Contiguous | LayoutKind::Permuted => t.view(),
+                LayoutKind::Contiguous | LayoutKind::Permuted | LayoutKind::Swapped => t.view(),
+                LayoutKind::SteppedOuter => {
+                    let items: Vec<rten_tensor::SliceItem> = (0..shape.len())
+                        .map(|d| if d == 0 { rten_tensor::SliceItem::range(1, None, 3) } else { rten_tensor::SliceItem::full_range() })
+                        .collect();
+                    t.slice(items.as_slice())
+                }
                 LayoutKind::Stepped => {
                     let last = shape.len() - 1;
                     let items: Vec<rten_tensor::SliceItem> = (0..shape.len())
@@ -183,7 +256,7 @@ impl Staged {
                         .collect();
                     t.slice(items.as_slice())
                 }
-                LayoutKind::Broadcast => t.broadcast(shape),
+                LayoutKind::Broadcast | LayoutKind::BroadcastAxis => t.broadcast(shape),
             }
         }
         match self {
